@@ -172,6 +172,37 @@ func (v *Verifier) structural(cfg PropConfig, sc StructuralCheck) []StructResult
 		}
 		return []StructResult{{Name: name, Kind: "frame", Text: fmt.Sprintf("writers(%s) within the allowed set", a.Field),
 			Detail: fmt.Sprintf("writers found: %s; not allowed: %s", strings.Join(seen, ", "), strings.Join(bad, ", ")), OK: len(bad) == 0}}
+	case "allocs_subset":
+		// objects of this struct type are only allocated (composite literal / new) in the allowed functions
+		var a struct {
+			Type    string   `json:"type"`
+			Allowed []string `json:"allowed"`
+		}
+		json.Unmarshal(sc.Args, &a)
+		t, err := v.ResolveType(a.Type, nil)
+		if err != nil {
+			engineErr("structural %s: %v", sc.Name, err)
+		}
+		var bad, seen []string
+		for _, fn := range v.moduleFunctions(false) {
+			found := false
+			for _, b := range fn.Blocks {
+				for _, in := range b.Instrs {
+					if al, ok := in.(*ssa.Alloc); ok && types.Identical(al.Type().(*types.Pointer).Elem(), t) {
+						found = true
+					}
+				}
+			}
+			if found {
+				k := shortKey(fn)
+				seen = append(seen, k)
+				if !matchAny(k, a.Allowed) {
+					bad = append(bad, k)
+				}
+			}
+		}
+		return []StructResult{{Name: name, Kind: "frame", Text: fmt.Sprintf("allocators(%s) within the allowed set", a.Type),
+			Detail: fmt.Sprintf("allocating functions: %s; not allowed: %s", strings.Join(seen, ", "), strings.Join(bad, ", ")), OK: len(bad) == 0}}
 	case "effects_exclude":
 		// the transitive write set of a function does not contain the given fields
 		var a struct {
@@ -219,6 +250,14 @@ func uniq(xs []string) []string {
 // callsFunction: fn contains a call that may reach callee (static call, or invoke of a method
 // callee implements).
 func (v *Verifier) callsFunction(fn, callee *ssa.Function) bool {
+	return v.callsFunctionX(fn, callee, map[*ssa.Function]bool{})
+}
+
+func (v *Verifier) callsFunctionX(fn, callee *ssa.Function, seen map[*ssa.Function]bool) bool {
+	if seen[fn] {
+		return false
+	}
+	seen[fn] = true
 	for _, b := range fn.Blocks {
 		for _, in := range b.Instrs {
 			ci, ok := in.(ssa.CallInstruction)
@@ -238,7 +277,7 @@ func (v *Verifier) callsFunction(fn, callee *ssa.Function) bool {
 					return true
 				}
 				// synthetic wrappers (promoted methods, bound methods) are followed
-				if sc.Synthetic != "" && len(sc.Blocks) > 0 && sc != fn && v.callsFunction(sc, callee) {
+				if sc.Synthetic != "" && len(sc.Blocks) > 0 && sc != fn && v.callsFunctionX(sc, callee, seen) {
 					return true
 				}
 				continue
